@@ -14,6 +14,8 @@ CHECKS = {
  'C02': ('model_checking', 'tlc-algebra', 'TLC explores the embed model over all (outer, inner) pairs x the four use_* flag pairs with soundness / exactness / raise-only-when as invariants; the same contracts, the fold law and neutrality of a bare (*args, **kwargs) are evaluated by TLC on events of the real signatures.embed.', '§5 C02'),
  'C03': ('model_checking', 'tlc-algebra', 'TLC explores the mask model over every signature x n x name tuples in every order x hide flags with exactness / raise-iff / hide-soundness as invariants; the same contracts and the laws (order independence over all permutations, mask(s,0)=s, composition, hide only removes) are evaluated by TLC on events of the real signatures.mask.', '§5 C03'),
  'C04': ('model_checking', 'tlc-algebra + tlc-exec', '(a) forwards = embed o mask as an equality of two real results and the composite soundness contract, as TLC invariant on the model and evaluated on real forwards outputs; (b) generated wrappers (8 placements: function, emulate, method, super, apply_forwards_to_super, bound/unbound) decorated as declared, retrieved through the real sigtools and really called on every shape of the call set; TLC (Trace_Exec) checks accepted => runs, rejected => raises where exactness is claimed, all retrieval routes agree, and that the spec\'s execution semantics (Wrappers!ExecOutcome) predicted every real outcome.', '§5 C04'),
+ 'C05': ('model_checking', 'tlc-autofwd + tlc-exec', 'spec/AutoFwd.tla is a state machine whose behaviours are programs: the walker\'s namespace machine (transcribed from CallListerVisitor) next to a runtime ghost, over a 164-statement alphabet (forwarding calls in 6 placements x 16 star-argument forms, taints of 13 forms in 5 placements, decoys); TLC explores all programs up to the bound (invariants TypeOK, Monotone, C05_Model). Every program is rendered, analysed by the real walker, retrieved through sigtools.signature and executed with its runtime ghost observed; TLC (Trace_AutoFwd) re-runs the walker model on each program and checks on the real observations: an accepted non-colliding call never raises a binding TypeError, a star that was not pristine when a call ran is not advertised, the model\'s call list equals the real walker\'s (drift), the model\'s ghost equals the observation. Plus the one-call grid over the signature universe x 8 callee resolution routes (Trace_Exec).', '§5 C05'),
+ 'C06': ('model_checking', 'tlc-autofwd + tlc-exec', 'Same program space as C05. For every program without taint statements and every grid point the discovered signature AND provenance are compared by TLC with the explicit declaration computed through the public algebra only (forwards per written call, merged), with the plain signature in the stated fallback cases, and across three syntactic variants of each program (statement contexts, unrelated statements, local names) and wrap-only decorators.', '§5 C06'),
  'C08': ('model_checking', 'tlc-algebra', 'Provenance well-formedness (keys exact, non-empty, duplicate-free, depths present and ordered, exactly the declaring inputs) is an invariant of every SigMachine result over universes with equal and different star names, and is evaluated by TLC on every result the real merge/embed/mask/forwards return.', '§5 C08'),
  'C09': ('model_checking', 'tlc-algebra', 'Exactness and raise-iff of merge on name-aligned role-consistent inputs as TLC invariants over all pairs, and evaluated on real merge outputs; the identity, idempotence, neutral-element, sort/apply and fold laws are checked by TLC as equalities between two REAL results logged in one event.', '§5 C09'),
  'C10': ('model_checking', 'tlc-algebra', 'The metadata rules (optional only if all optional; common default else None; agreed annotation else none; kinds only restrict; order; outer defaults dropped only before a required inner positional; partial keywords) as TLC invariants over a universe extended with distinct default and annotation ids, and evaluated by TLC on real results computed with real default/annotation objects.', '§5 C10'),
@@ -26,8 +28,6 @@ NOTES = {
  'C16': TRUST + ' Part (b) (crash points) is under construction; until it lands only the algebra half is decided.',
 }
 PENDING = {
- 'C05': 'check under construction (AutoFwd walker model + executed programs)',
- 'C06': 'check under construction (shares the C05 program space)',
  'C07': 'check under construction (Retrieval model + corpus)',
  'C11': 'check under construction (annotation-context model)',
  'C12': 'check under construction (Modifiers routing model)',
@@ -61,7 +61,9 @@ def main():
         'engines': [
             {'name': 'tlc-algebra', 'path': ALG, 'serves_properties': [p for p, v in CHECKS.items() if 'tlc-algebra' in v[1]],
              'kind_free_text': 'TLA+ specification of the signature algebra (reference model + relational contracts) checked by TLC; TLC trace validation of events recorded from the real code; replay of model counterexamples into the real code'},
-            {'name': 'tlc-exec', 'path': 'spec/Wrappers.tla spec/Trace_Exec.tla harness/progs.py', 'serves_properties': ['C04'],
+            {'name': 'tlc-autofwd', 'path': 'spec/AutoFwdCore.tla spec/AutoFwd.tla spec/Trace_AutoFwd.tla harness/autofwd.py harness/checks/c05.py', 'serves_properties': ['C05', 'C06'],
+             'kind_free_text': 'TLA+ model of the AST walker (namespace machine + runtime ghost) whose behaviours are programs; every behaviour rendered to Python, analysed by the real walker, executed, and validated by TLC'},
+            {'name': 'tlc-exec', 'path': 'spec/Wrappers.tla spec/Trace_Exec.tla harness/progs.py', 'serves_properties': ['C04', 'C05', 'C06'],
              'kind_free_text': 'execution semantics of forwarding wrappers in TLA+; generated programs really executed and their outcomes validated by TLC'},
             {'name': 'tlc-pybind', 'path': 'spec/PyBind.tla spec/PyBindMachine.tla spec/Trace_PyBind.tla harness/checks/c20.py', 'serves_properties': ['C20'],
              'kind_free_text': 'the CPython binding oracle in TLA+, validated by TLC against really calling generated functions'},
